@@ -160,3 +160,8 @@ pub trait ServerSocket {
         to: Self::Addr,
     ) -> impl Future<Output = Result<(), Self::Error>>;
 }
+
+// verification hook (guard: cfg(kani)); contract harnesses live outside the repository
+#[cfg(kani)]
+#[path = "/verif/kani/statime_csptp/server.rs"]
+mod verif;
